@@ -22,7 +22,7 @@ import warnings
 from fractions import Fraction
 import numpy as np
 import z3
-from ndvc import solve
+from ndvc import solve, xcheck
 from ndvc.sym import R, C, real, cplx, lift, CTX, explore, NeedsConcrete, SQRT, parts
 from ndvc.arr import SymArr, asobj, wrap
 from ndvc.overlay import installed, NpProxy
@@ -270,6 +270,36 @@ def run_poly():
             if ok:
                 H = paths[0].hyps + S2 + pre
                 bs, rs = cap['bs'], cap['rs']
+                # engine cross-check: the same scripted search on floats with numpy's own fft / exp
+                from fractions import Fraction as Fr
+                an = [complex(((3 * j + 1) % 7 - 3) / 2.0, ((5 * j) % 4 - 1) / 4.0) for j in range(m)]
+                rn = [0.5, 0.8, 0.4, 1.1, 0.65]
+                asg = {'z0.re': Fr(3, 10), 'z0.im': Fr(-1, 5)}
+                for j in range(m):
+                    asg['a%d.re' % j] = Fr(an[j].real); asg['a%d.im' % j] = Fr(an[j].imag)
+                for i in range(nrad):
+                    asg['r%d' % i] = Fr(rn[i])
+
+                def native():
+                    import importlib
+                    fbn = importlib.import_module('numdifftools.fornberg')
+                    z0n = complex(0.3, -0.2)
+                    Tn = fbn.Taylor(lambda z: sum(an[j] * (z - z0n) ** j for j in range(m)), n=6, max_iter=nrad, full_output=True)
+                    Tn._check_convergence = lambda i, z0_, r, m_, bn: ((i == nrad - 1), (rn[i + 1] if i + 1 < nrad else r))
+                    Tn.r = rn[0]
+                    got = {}
+                    oldb = fbn._get_best_taylor_coefficients
+
+                    def spy_n(bs_, rs_, m_, mm):
+                        got['bs'] = [np.array(b_) for b_ in bs_]
+                        return bs_[-1], np.zeros(m_)
+                    fbn._get_best_taylor_coefficients = spy_n
+                    try:
+                        Tn(z0n)
+                    finally:
+                        fbn._get_best_taylor_coefficients = oldb
+                    return got['bs']
+                xcheck.defer('P:engine==CPython(fft-pipeline,5-radii)', [asobj(b_) for b_ in bs], asg, native, rtol=1e-9, atol=1e-9)
                 solve.fact('P:one-coefficient-vector-per-radius', len(bs) == nrad and all(lift(x).t.eq(y.t) for x, y in zip(rs, rs_script)))
                 for i in sorted({0, nrad - 1}):
                     for k in range(m):
@@ -288,6 +318,7 @@ def run_poly():
                 solve.twin('P:bs[1]==a_0', z3.And(C.lift(lift(asobj(bs[0])[1])).re.t == a[0].re.t), H)
         finally:
             fb._circle = old_circle
+    xcheck.flush()
     return {}
 
 
